@@ -13,7 +13,7 @@ CHECKS = {
     "C04": dict(
         technique="TLC invariant R_C04 (completeness of the result w.r.t. the input, branch-agnostic) on the implementation model; real results compared with the model's prediction per state, drift adjudicated by TLC on the real result",
         text="For every exported (document, accepted value) the real result is projected and compared with the model's predicted result; TLC has checked R_C04 on that prediction; any differing real result is judged by TLC against R_C04 itself (Trace_Doc).",
-        note="R_C04 accepts any composition branch as builder of the result; ints restricted to TLC range.",
+        note="R_C04 accepts any composition branch as builder of the result, except that a document that is nothing but an anyOf / a type list must be built by its FIRST accepting member (FirstBranch); every class document is also called through a subclass that adds nothing; Instances.tla / MC_Inst predict instance == and repr (27k results compared); ints restricted to TLC range.",
         ref="5/C04"),
     "C05": dict(
         technique="TLC invariant R_C05 (relational: omitted property = conversion of its default when valid, raw default when not; element called with no value = its own default) on model and on replayed real observations",
@@ -23,7 +23,7 @@ CHECKS = {
     "C10": dict(
         technique="TLC-enumerated documents x values replayed on the real code; outcome kinds outside {return, ValidationError, TypeError} / {element, SchemaParseError family} adjudicated by Trace_Doc (R_C10)",
         text="Every exported state: parse outcome kind and the outcome kind of every call (including the call with no value) must be in the allowed alphabet; plus extreme numbers, deep nesting and unusual strings generated from the spec's extreme classes.",
-        note="Termination is observed under a wall-clock limit per state.",
+        note="Termination is observed under a CPU-time limit per state (20 s; independent of machine load). Extreme.tla adds numbers beyond the float range, integers beyond the str-digits limit, regex-dialect constructs, patterns that cannot be joined, schemas nested beyond the recursion budget, unusual names; random documents with extreme numbers are adjudicated too.",
         ref="5/C10"),
     "C20": dict(
         technique="TLC builder action AddUnsupported at every schema position; invariant R_C20 (refused iff an unsupported keyword sits at a schema position; stripped schema parses) on model and replayed on the real parser; $ref cycles through the real CLI path",
@@ -33,12 +33,12 @@ CHECKS = {
     "C02": dict(
         technique="TLC-enumerated reference graphs (MC_Refs.tla: nodes, $ref edges at every schema position, two files, clashing titles) driven through the real statham.__main__.main; generated module executed and compared with the directly parsed models; facts adjudicated by Trace_Refs (R_C02) incl. Draft6.tla verdicts of the generated root; PyModule.tla / MC_Py predict the module structure (declaration order, class arguments, docstring, property lines) which is compared with the real text read back by ast",
         text="Every document set within the bound (<=3 schema nodes, <=2-3 $ref edges over 6-11 positions, local and cross-file references, diamonds, unreachable definitions, equal explicit titles) goes through the real command-line function; the module must execute with only its own imports, declare every class once and before use, exactly the classes of the direct parse, each equal to it, and the generated root must give the Draft-6 verdict on the value universe.",
-        note="'one class per distinct object schema' is judged against the directly parsed tree (bijection by name + equality); statements are analysed with Python's ast; Draft6.tla resolves $ref inside the document set.",
+        note="'one class per distinct object schema' is judged against the directly parsed tree (bijection by name + equality) AND against the number of object-shaped nodes of the specification's graph; every description of MC_Desc must give a module that executes; statements are analysed with Python's ast; Draft6.tla resolves $ref inside the document set.",
         ref="5/C02"),
     "C03": dict(
         technique="every exported document state parsed, serialized with the real serialize_json, and the document adjudicated by TLC (Meta.tla metaschema, reference resolution, Draft6.tla verdict sets against the element's observed verdicts on the value universe); Serializers.tla / MC_Ser: the same clause checked by TLC on the model's serialize_json, real output compared with the predicted document",
         text="serialize_json output of every element tree of the document family is checked by TLC to be a well-formed Draft-6 schema with resolvable acyclic references that gives, for each of 51 values, the verdict the element itself gave.",
-        note="Element trees are the parser's image plus DSL rebuilds; DSL-only shapes (explicit required next to properties, renamed properties) are reached through parsed documents with the same shape.",
+        note="Element trees are the parser's image plus DSL rebuilds; DSL-only shapes (explicit required next to properties, renamed properties) are reached through parsed documents with the same shape; also serialized: with look-alike caller definitions (1 / True), several elements in one call (an inner class first), a subclass after its parent.",
         ref="5/C03"),
     "C06": dict(
         technique="round trips on every exported document state: serialize(parse(doc)) -> parse -> serialize through the real dereferencing path, and the same starting from the DSL rebuild of the MODEL's element (serializer image reached without the parser); exec of generated Python; equalities adjudicated by TLC (C06_Clause); MC_Ser checks the round trip on the model (ToJsonDoc . Parse . materialize) in every state",
@@ -63,7 +63,7 @@ CHECKS = {
     "C13": dict(
         technique="Lifecycle.tla reconfiguration actions; every history replayed on long-lived real objects; Trace_Heap requires each reconfiguration step to change the projected heap exactly as the spec action and each validation to agree with a freshly built object of the same configuration",
         text="All histories of SetKeyword/ClearKeyword/PutProperty/DelProperty/ToggleRequired/Validate up to length 2 (all) and 3 (validate;reconfigure;validate) plus simulated histories of length 7-10, on an element, a class and a subclass.",
-        note="Fresh objects are rebuilt through the public DSL from the attribute projection.",
+        note="Fresh objects are rebuilt through the public DSL from the SPECIFICATION's state; operations: set / clear keyword, put / update / delete / move property, toggle required, replace the members of a composition, validate; targets: untyped element, class, two subclasses, element with tuple items, AnyOf.",
         ref="5/C13"),
     "C11": dict(
         technique="TLA+ state machine of orderer.py (get_children with identity-based seen, insertion-ordered dependency dict, CycleCheck/Pop/Finish) checked by TLC over all digraphs of object classes with every edge placed in rotating keyword positions / wrapper chains; safety invariants in every state and liveness under weak fairness; every terminal state replayed on real classes under a wall-clock timeout, drift adjudicated by TLC trace validation against R_C11",
@@ -93,12 +93,12 @@ CHECKS = {
     "C17": dict(
         technique="pairs of documents one insertion / one literal apart (builder edges of MC_Doc and look-alike literals True/1/1.0, longer/shorter lists) parsed on the real code; ==, verdict vectors and JSON adjudicated by TLC (PropsElem.tla C17_Clause: symmetry, congruence with validation and serialization), independent copies equal",
         text="For every exported document: the element vs itself, vs an independently parsed copy, vs every document with one keyword removed (root and one level down) and vs look-alike literal variants; whenever == says equal, the 48 verdicts and the inlined, title-free JSON documents must coincide.",
-        note="Pairs are neighbours in the builder graph, not all pairs.",
+        note="Pairs are neighbours in the builder graph (one keyword removed, one literal replaced by a Python look-alike, members permuted or repeated, inheritance pairs), not all pairs; the serializer's use of == (caller definitions) is checked on the same pairs.",
         ref="5/C17"),
     "C18": dict(
         technique="repr of every element of every parsed tree (and of its DSL rebuild with shared instances, and of unbound property wrappers) evaluated in a namespace of the public classes; rebuilt tree adjudicated by TLC (ElemSame, keyword presence) ",
         text="eval(repr(e)) must be == e and structurally identical (type-exact literals); keyword arguments shown = keywords differing from the constructor default.",
-        note="Bound properties are covered through their enclosing element (their repr omits source by design when it equals the name).",
+        note="Bound properties are covered through their enclosing element (their repr omits source by design when it equals the name); Repr.tla / MC_Repr: TLC checks EvalTerm(ReprOf(x)) = x for every element of every tree and the real repr text (read back with ast) equals the model's term; repr is also taken again after a change below the element and for one property object declared under two names.",
         ref="5/C18"),
     "C19": dict(
         technique="every exported document placed under a property, a required property and array items of a model through the real parser; annotation text taken from the generated source, parsed to a type expression and adjudicated by TLC (HasType) against the runtime values of all accepted inputs; Annot.tla / MC_Ser: HasType(model value, model annotation) checked in every state, real annotation compared with the predicted one",
